@@ -210,3 +210,32 @@ MUTANTS["C05"] = [
 
 MUTANTS["C01"].append(("MetaModule caches the embedded project bytes after the first save",
      [("rv/modules/metamodule.py", "        yield b\"CHDT\", self.project.read()", "        if getattr(self, \"_cached\", None) is None:\n            self._cached = self.project.read()\n        yield b\"CHDT\", self._cached")]))
+
+MUTANTS["C17"] = [
+    ("ArrayChunk.reset shares the class-level default list",
+     [("rv/chunks/array.py", "            self.values = self.default.copy()", "            self.values = self.default")]),
+    ("WaveformChunk shares the class-level default samples",
+     [("rv/chunks/waveform.py", "        self.samples = self.default[:] if self.default is not None else []", "        self.samples = self.default if self.default is not None else []")]),
+    ("Sampler.Envelope shares initial_points",
+     [("rv/modules/sampler.py", "            self.points = self.initial_points[:]", "            self.points = self.initial_points")]),
+    ("controller_midi_maps default shared by all modules",
+     [("rv/modules/module.py", "        self.controller_midi_maps = defaultdict(ControllerMidiMap)", "        self.controller_midi_maps = _SHARED_MAPS"),
+      ("rv/modules/module.py", "class Chunk:\n    \"\"\"A chunk of custom data related to a module.\"\"\"", "_SHARED_MAPS = defaultdict(ControllerMidiMap)\n\n\nclass Chunk:\n    \"\"\"A chunk of custom data related to a module.\"\"\"")]),
+    ("Sampler note map built once at class level",
+     [("rv/modules/sampler.py", "        self.note_samples = self.NoteSampleMap()", "        if not hasattr(Sampler, \"_shared_map\"):\n            Sampler._shared_map = self.NoteSampleMap()\n        self.note_samples = Sampler._shared_map")]),
+    ("Project patterns list is a shared mutable default argument",
+     [("rv/project.py", "    def __init__(self):\n        self.modules = []", "    def __init__(self, _patterns=[]):\n        self.modules = []"),
+      ("rv/project.py", "        self.patterns = []\n", "        self.patterns = _patterns\n")]),
+    ("MetaModules constructed without a project share one default embedded project",
+     [("rv/modules/metamodule.py", "        self.project = project or Project()\n        self.project.metamodule = self", "        global _DEFAULT_PROJECT\n        if project is None:\n            if _DEFAULT_PROJECT is None:\n                _DEFAULT_PROJECT = Project()\n            project = _DEFAULT_PROJECT\n        self.project = project\n        self.project.metamodule = self"),
+      ("rv/modules/metamodule.py", "MAX_USER_DEFINED_CONTROLLERS = 96\n", "MAX_USER_DEFINED_CONTROLLERS = 96\n_DEFAULT_PROJECT = None\n")]),
+    ("MultiCtl mapping defaults are one shared Mapping object per process",
+     [("rv/modules/multictl.py", "        def default(self, _):\n            return MultiCtl.Mapping((0, 0x8000, 0, 0, 0, 0, 0, 0))", "        def default(self, _):\n            if not hasattr(MultiCtl, \"_dm\"):\n                MultiCtl._dm = MultiCtl.Mapping((0, 0x8000, 0, 0, 0, 0, 0, 0))\n            return MultiCtl._dm")]),
+    ("Sampler effect_control_envelopes list shared across samplers after the first",
+     [("rv/modules/sampler.py", "        self.effect_control_envelopes = [\n            self.EffectControlEnvelope(0x105),\n            self.EffectControlEnvelope(0x106),\n            self.EffectControlEnvelope(0x107),\n            self.EffectControlEnvelope(0x108),\n        ]",
+       "        if not hasattr(Sampler, \"_ece\"):\n            Sampler._ece = [\n                self.EffectControlEnvelope(0x105),\n                self.EffectControlEnvelope(0x106),\n                self.EffectControlEnvelope(0x107),\n                self.EffectControlEnvelope(0x108),\n            ]\n        self.effect_control_envelopes = Sampler._ece")]),
+    ("Container.clone memoises by saved bytes (two clones of an unchanged object are one object)",
+     [("rv/container.py", "    def clone(self):\n        with BytesIO() as f:\n            self.write_to(f)\n            f.seek(0)\n            return read_sunvox_file(f)",
+       "    def clone(self):\n        with BytesIO() as f:\n            self.write_to(f)\n            key = f.getvalue()\n            if key not in _CLONES:\n                f.seek(0)\n                _CLONES[key] = read_sunvox_file(f)\n            return _CLONES[key]"),
+      ("rv/container.py", "class Container:", "_CLONES = {}\n\n\nclass Container:")]),
+]
